@@ -20,13 +20,14 @@ env = dict(os.environ)
 if inplace:
     wt = "/repo"
 else:
-    wt = "/tmp/mr/repo"
-    os.makedirs("/tmp/mr", exist_ok=True)
+    base = os.environ.get("MR_DIR", "/tmp/mr")
+    wt = base + "/repo"
+    os.makedirs(base, exist_ok=True)
     if not os.path.exists(wt):
         subprocess.run(["git", "-C", "/repo", "worktree", "add", "-q", "--detach", wt, "HEAD"], check=True)
     head = subprocess.run(["git", "-C", "/repo", "rev-parse", "HEAD"], capture_output=True, text=True).stdout.strip()
     subprocess.run(["git", "-C", wt, "checkout", "-q", "--detach", head], check=True)
-    env.update(VX_REPO=wt, VX_TARGET="/tmp/mr/target")
+    env.update(VX_REPO=wt, VX_TARGET=base + "/target")
 st = subprocess.run(["git", "-C", wt, "status", "--porcelain", "--untracked-files=no"], capture_output=True, text=True).stdout.strip()
 if st:
     print("TREE NOT CLEAN:", st)
